@@ -213,6 +213,13 @@ func shouldTransformKeyword(source string, pos int, keyword string) bool {
 func isInsideBlock(source string, pos int) bool {
 	depth := 0
 	for i := 0; i < pos; i++ {
+		if source[i] == '#' || (source[i] == '/' && i+1 < pos && source[i+1] == '/') {
+			// Skip comments: a brace or quote inside a comment is not code
+			for i < pos && source[i] != '\n' {
+				i++
+			}
+			continue
+		}
 		if source[i] == '"' || source[i] == '\'' {
 			// Skip strings
 			quote := source[i]
